@@ -647,7 +647,7 @@ func runC13Conc(c *Ctx, w *c13Workload) {
 	type combo struct{ g, p int }
 	combos := []combo{{2, 2}, {8, 16}, {32, 16}, {128, 16}}
 	if c.Thorough() {
-		combos = []combo{{2, 2}, {8, 2}, {8, 16}, {32, 2}, {32, 16}, {128, 2}, {128, 16}, {512, 16}}
+		combos = []combo{{2, 2}, {8, 2}, {8, 16}, {32, 2}, {32, 16}, {128, 2}, {128, 16}, {256, 16}}
 	}
 	cb := combos[c.Shard%len(combos)]
 	runtime.GOMAXPROCS(cb.p)
